@@ -315,6 +315,13 @@ func (h *c14History) variant(e *c14Ev, kind string) string {
 		return h.rebuild(e, false, func(f c14Fields) { f["state_key"] = strings.Repeat("k", 300) })
 	case "longtype_p":
 		return h.rebuild(e, false, func(f c14Fields) { f["type"] = "t." + strings.Repeat("€", 86) })
+	case "badsig_disallowed": // two faults: bad signature AND disallowed by its auth events
+		return h.rebuild(e, true, func(f c14Fields) {
+			f["sender"] = "@outsider:" + e.server
+			f["origin"] = e.server
+		})
+	case "badsig_wrongroom":
+		return h.rebuild(e, true, func(f c14Fields) { f["room_id"] = "!elsewhere:h0" })
 	case "malformed":
 		return e.text[:len(e.text)-1]
 	case "malformed2":
@@ -601,7 +608,7 @@ func (g *c14Gen) run(b *c14Builder, desc string) []byte {
 	g.c.Count("ver:" + b.spec.Ver)
 	prop := ""
 	switch b.spec.Op {
-	case "csr", "sj", "chain":
+	case "csr", "sj", "chain", "load", "bf":
 		if b.stationary() {
 			prop = "C14.prop." + b.spec.Op
 		}
@@ -661,7 +668,7 @@ func (g *c14Gen) genState(h *c14History) {
 	}
 	// fault subsets of size 2 and 3
 	ps := h.positions()
-	for i := 0; i < c.Scale(110, 1500); i++ {
+	for i := 0; i < c.Scale(110, 900); i++ {
 		n := 2 + c.Rng.Intn(2)
 		var f []c14Fault
 		for j := 0; j < n; j++ {
@@ -921,7 +928,7 @@ func (g *c14Gen) genVras(h *c14History) {
 	g.run(b, "vras no script")
 }
 
-var c14LoadFaults = []string{"", "", "", "badsig", "disallowed", "malformed", "oversize_p", "oversize_np", "wrongroom", "malformed2", "nonstate"}
+var c14LoadFaults = []string{"", "", "", "badsig", "disallowed", "malformed", "oversize_p", "oversize_np", "wrongroom", "malformed2", "nonstate", "badsig_disallowed", "badsig_wrongroom"}
 
 // pdus picks raw inputs for LoadAndVerify / a backfill transaction: events of the history in
 // random order, some of them faulty, some twice; provider answers for what they need.
@@ -1003,6 +1010,24 @@ func (g *c14Gen) genLoad(h *c14History) {
 			}
 		}
 	}
+	// two faults in one event: the class must be that of the FIRST failing check. Honest
+	// providers, so that the specification oracle decides each class on its own.
+	for _, e := range h.allEvents() {
+		for _, kind := range []string{"badsig", "badsig_disallowed", "badsig_wrongroom", "disallowed"} {
+			for _, ism := range [][2]string{{"exact", "proper"}, {"minus", "err"}, {"minus", "bad"}, {"err", "proper"}, {"minus", "proper"}} {
+				b := newC14Builder("load", ver)
+				t := h.variant(e, kind)
+				b.spec.R = []int{b.t(t), b.t(h.room.evs[0].text)}
+				b.sp(h, t, e, ism[0], ism[1])
+				b.sp(h, h.room.evs[0].text, h.room.evs[0], "exact", "proper")
+				for _, x := range h.room.evs {
+					b.script(h, x.id, x, "orig")
+				}
+				c.Count("load:twofaults:" + kind)
+				g.run(b, fmt.Sprintf("load v%s %s/%s ids=%s state=%s honest providers", ver, e.name, kind, ism[0], ism[1]))
+			}
+		}
+	}
 	for i := 0; i < c.Scale(60, 600); i++ {
 		b := newC14Builder("load", ver)
 		b.spec.R = g.pdus(h, b, c.Rng.Intn(7))
@@ -1011,8 +1036,65 @@ func (g *c14Gen) genLoad(h *c14History) {
 	}
 }
 
+// sameIDCases: the same event ID arrives from several servers, acceptable from one and not from
+// another (bad signature, rejected by the auth checks, unparsable), in both orders; limits around
+// the number of events the first server contributes.
+func (g *c14Gen) sameIDCases(h *c14History) {
+	c, ver := g.c, string(h.room.ver)
+	evs := h.room.evs
+	filler := evs[0] // the create event: always acceptable
+	for xi, x := range evs {
+		if xi == 0 || (!c.Thorough() && xi%2 == 0 && xi != len(evs)-1) {
+			continue
+		}
+		bads := []string{"badsig", "malformed", "prov_err_once"}
+		if h.room.v1 {
+			bads = append(bads, "disallowed", "badsig_disallowed") // same ID, other content
+		}
+		for _, bad := range bads {
+			for _, order := range []string{"bad_first", "good_first", "bad_good_bad"} {
+				for _, limit := range []int{100, 1, 2, 3} {
+					if !c.Thorough() && limit == 3 && order != "bad_first" {
+						continue
+					}
+					b := newC14Builder("bf", ver)
+					goodT, badT := x.text, x.text
+					if bad != "prov_err_once" {
+						badT = h.variant(x, bad)
+					}
+					b.sp(h, goodT, x, "exact", "proper")
+					b.sp(h, filler.text, filler, "exact", "proper")
+					for _, y := range evs {
+						m := "orig"
+						if bad == "prov_err_once" && len(x.auth) > 0 && y == x.auth[len(x.auth)-1] {
+							m = "err_then_orig" // the first auth-chain check of X fails, later ones pass
+						}
+						b.script(h, y.id, y, m)
+					}
+					gp, bp, fp := b.t(goodT), b.t(badT), b.t(filler.text)
+					switch order {
+					case "bad_first":
+						b.spec.Servers = []string{"s0", "s1"}
+						b.spec.BF = []c14BF{{Server: "s0", PDUs: []int{bp, fp}}, {Server: "s1", PDUs: []int{gp}}}
+					case "good_first":
+						b.spec.Servers = []string{"s0", "s1"}
+						b.spec.BF = []c14BF{{Server: "s0", PDUs: []int{fp, gp}}, {Server: "s1", PDUs: []int{bp}}}
+					case "bad_good_bad":
+						b.spec.Servers = []string{"s0", "s1", "s2"}
+						b.spec.BF = []c14BF{{Server: "s0", PDUs: []int{bp}}, {Server: "s1", PDUs: []int{gp, fp}}, {Server: "s2", PDUs: []int{bp, gp}}}
+					}
+					b.spec.From, b.spec.Limit = []string{evs[len(evs)-1].id}, limit
+					c.Count("bf:sameid:" + bad + ":" + order)
+					g.run(b, fmt.Sprintf("bf v%s same ID %s: %s %s limit=%d", ver, x.name, bad, order, limit))
+				}
+			}
+		}
+	}
+}
+
 func (g *c14Gen) genBackfill(h *c14History) {
 	c, ver := g.c, string(h.room.ver)
+	g.sameIDCases(h)
 	// the same events from several servers (honest providers): every event is returned once
 	for _, limit := range []int{100, len(h.room.evs), len(h.room.evs) + 1, 3} {
 		b := newC14Builder("bf", ver)
